@@ -105,7 +105,9 @@ def make_files(rng, deep=False):
     total_after_burnin = 0
     for fi in range(nfiles):
         if fi == 0:
-            nt = rng.randint(burnin + 1, burnin + 4)
+            # (the first source normally has trees left after the burn-in; now and then it holds none at all - the
+            # parallel mode takes the taxon names from the first tree it can find)
+            nt = 0 if rng.random() < 0.12 else rng.randint(burnin + 1, burnin + 4)
         else:
             nt = rng.randint(0, 9 if deep else 5)
         trees = []
